@@ -79,7 +79,7 @@ func (m *hgModel) expire() {
 }
 
 func (m *hgModel) process(id string, flush bool, tag string) {
-	e := &eventlogger.Event{Type: "gated", Payload: &hgPayload{id: id, flush: flush}}
+	e := &eventlogger.Event{Type: "gated", CreatedAt: time.Unix(0, int64(nondetInt())), Payload: &hgPayload{id: id, flush: flush}}
 	out, err := m.w.Process(context.Background(), e)
 	verifAssert(err == nil, tag+".process-succeeds")
 	m.expire()
